@@ -1068,7 +1068,8 @@ fn gen_props(sh: &Shared) -> Option<PubProps> {
         p.message_expiry_interval = Some(3600 + sh.pick(1000));
     }
     if mask & 4 != 0 {
-        p.response_topic = Some("reply/here".to_string());
+        // multi-byte characters: byte length != character count (no new draw)
+        p.response_topic = Some(if mask & 1 != 0 { "r\u{e9}ponse/\u{20ac}/\u{1f600}" } else { "reply/here" }.to_string());
     }
     if mask & 8 != 0 {
         // lengths that move the property block across the 127/128 boundary
@@ -1077,10 +1078,10 @@ fn gen_props(sh: &Shared) -> Option<PubProps> {
     }
     if mask & 16 != 0 {
         let n = if sh.coin(1, 2) { 2 } else { sh.pick(200) as usize };
-        p.user_properties = vec![("k".to_string(), "v".repeat(n))];
+        p.user_properties = vec![(if mask & 2 != 0 { "k\u{fc}" } else { "k" }.to_string(), if mask & 1 != 0 { "\u{20ac}".repeat(n) } else { "v".repeat(n) })];
     }
     if mask & 32 != 0 {
-        p.content_type = Some("text/plain".to_string());
+        p.content_type = Some(if mask & 4 != 0 { "text/plain; charset=\u{fc}tf" } else { "text/plain" }.to_string());
     }
     if mask & 64 != 0 {
         p.topic_alias = Some(1 + sh.pick(3) as u16);
